@@ -32,12 +32,11 @@ impl Matcher {
             .map(|i| haystack[i].char_class(&self.config))
             .unwrap_or(self.config.initial_char_class);
         let matched = matrix.setup::<INDICES, _>(needle, prev_class, &self.config, start as u32);
-        // this only happened with unicode haystacks, for ASCII the prefilter handles all rejects
+        // for normalized needles this only happens with unicode haystacks (for
+        // ASCII the prefilter handles all rejects), but a needle that was not
+        // normalized by the caller (e.g. "B" with ignore_case) passes the ASCII
+        // prefilter and must be rejected here instead of panicking
         if !matched {
-            assert!(
-                !N::ASCII || !H::ASCII,
-                "should have been caught by prefilter"
-            );
             return None;
         }
 
